@@ -288,6 +288,7 @@ type polInst struct {
 	evl          bool
 	basicRefused bool
 	extra        int // elements appended by the built-in Marshal
+	ro           bool // read-only: installing / removing closures is refused, the installed ones still decide
 }
 
 type polOp struct {
@@ -321,7 +322,16 @@ func describeArgs(in []any) string {
 
 func c14PolOps(isCond bool) []polOp {
 	var ops []polOp
-	add := func(n string, f func(in *polInst)) { ops = append(ops, polOp{n, f}) }
+	add := func(n string, f func(in *polInst)) {
+		ops = append(ops, polOp{n, func(in *polInst) {
+			before := *in
+			f(in)
+			if before.ro && n != "SetErr(nil)" && !strings.HasPrefix(n, "SetReadOnly") {
+				// refused: the call was made, the closures stay as they were
+				in.vpf, in.rpf, in.eqf, in.umf, in.maf, in.evl, in.basicRefused = before.vpf, before.rpf, before.eqf, before.umf, before.maf, before.evl, before.basicRefused
+			}
+		}})
+	}
 	vAccept := func(...any) error { return nil }
 	vReject := func(...any) error { return errV }
 	present := func(...any) string { return "PRESENTED" }
@@ -345,6 +355,8 @@ func c14PolOps(isCond bool) []polOp {
 		add("SetUnmarshaler(nil)", func(in *polInst) { in.cd.SetUnmarshaler(nil); in.umf = false })
 		add("SetEvaluator(fn)", func(in *polInst) { in.cd.SetEvaluator(evl); in.evl = true })
 		add("SetEvaluator(nil)", func(in *polInst) { in.cd.SetEvaluator(nil); in.evl = false })
+		add("SetReadOnly(true)", func(in *polInst) { in.cd.SetReadOnly(true); in.ro = true })
+		add("SetReadOnly(false)", func(in *polInst) { in.cd.SetReadOnly(false); in.ro = false })
 		return ops
 	}
 	add("SetValidityPolicy(accept)", func(in *polInst) { in.s.SetValidityPolicy(vAccept); in.vpf = 1 })
@@ -377,6 +389,8 @@ func c14PolOps(isCond bool) []polOp {
 	add("SetMarshaler()", func(in *polInst) { in.s.SetMarshaler(); in.maf = false })
 	add("SetMarshaler(nil)", func(in *polInst) { in.s.SetMarshaler(nil); in.maf = false })
 	add("SetErr(nil)", func(in *polInst) { in.s.SetErr(nil); in.basicRefused = false })
+	add("SetReadOnly(true)", func(in *polInst) { in.s.SetReadOnly(true); in.ro = true })
+	add("SetReadOnly(false)", func(in *polInst) { in.s.SetReadOnly(false); in.ro = false })
 	return ops
 }
 
@@ -479,6 +493,9 @@ func c14PolMachine(c *Ctx, kind string) *Machine[*polInst] {
 						bad("cond-isequal", "built-in IsEqual accepts a different Condition after the closure was removed")
 					}
 				}
+				if msg := c14Nested(in.cd, mkCond(), stackage.Cond("other!", stackage.Eq, "val"), in.eqf); msg != "" {
+					bad("cond-isequal-nested", "%s", msg)
+				}
 				u, uerr := in.cd.Unmarshal()
 				tu, _ := in.ct.Unmarshal()
 				if in.umf {
@@ -545,6 +562,11 @@ func c14PolMachine(c *Ctx, kind string) *Machine[*polInst] {
 			} else if eq != wantEq {
 				bad("isequal", "IsEqual(twin)=%v want %v (equality closure state %d)", eq, wantEq, in.eqf)
 			}
+			if in.extra == 0 {
+				if msg := c14Nested(s, in.tw, newStackKind(in.kind).Push("a", "something else"), in.eqf); msg != "" {
+					bad("isequal-nested", "%s", msg)
+				}
+			}
 			u, uerr := s.Unmarshal()
 			if in.umf {
 				if uerr != nil || len(u) != 1 || u[0] != "UNMARSHALED" {
@@ -569,6 +591,10 @@ func c14PolMachine(c *Ctx, kind string) *Machine[*polInst] {
 						break
 					}
 				}
+			} else if in.ro {
+				if s.Len() != n {
+					bad("marshal", "built-in Marshal() into a read-only stack: Len %d->%d", n, s.Len())
+				}
 			} else {
 				if merr != nil || s.Len() != n+1 {
 					bad("marshal", "built-in Marshal()=%v Len %d->%d, want nil and one new element", merr, n, s.Len())
@@ -587,6 +613,42 @@ func c14PolMachine(c *Ctx, kind string) *Machine[*polInst] {
 			return stackage.VerifDump(in.s).Key(false) + fmt.Sprint(in.vpf, in.eqf, in.basicRefused)
 		},
 	}
+}
+
+// c14Nested: the instance carrying the equality closure is compared as PART of something else (an element
+// of a Stack, a Condition's expression, an entry of a slice leaf), on the receiver's side: its closure (or,
+// without one, the built-in comparison) gives the verdict there too. same is an equal instance without
+// closure, other a different one.
+func c14Nested(x, same, other any, eqf int) string {
+	wrap := []struct {
+		n string
+		f func(v any) any
+	}{
+		{"an element of a LIST", func(v any) any { return stackage.List().Push("x", v) }},
+		{"the only element of an AND", func(v any) any { return stackage.And().Push(v) }},
+		{"a Condition's expression", func(v any) any { return stackage.Cond("k", stackage.Eq, v) }},
+		{"an entry of a []any leaf", func(v any) any { return stackage.List().Push([]any{"x", v}) }},
+	}
+	for _, w := range wrap {
+		for _, cmp := range []struct {
+			n    string
+			v    any
+			same bool
+		}{{"an equal instance", same, true}, {"a different instance", other, false}} {
+			var err error
+			switch a := w.f(x).(type) {
+			case stackage.Stack:
+				err = a.IsEqual(w.f(cmp.v))
+			case stackage.Condition:
+				err = a.IsEqual(w.f(cmp.v))
+			}
+			wantNil := map[int]bool{0: cmp.same, 1: true, 2: false}[eqf]
+			if (err == nil) != wantNil {
+				return fmt.Sprintf("as %s, compared with %s in the same place: IsEqual=%v, want nil=%v (equality closure state %d: 0 none, 1 answers nil, 2 answers an error)", w.n, cmp.n, err, wantNil, eqf)
+			}
+		}
+	}
+	return ""
 }
 
 func init() {
